@@ -85,7 +85,8 @@ def run_part(chk, tier):
                 add(c["codec"], c["cap"], "rnd:%d:%d" % (c["seed"] * 31 + len(c["hdr"]), c["n"]), ("noise", None))
             else:
                 add(c["codec"], c["cap"], "raw:" + rope_str(rope), ("header+fill", None))
-    res, faults, leaky = cl.run_parallel(binary, lines, per_case_timeout=30.0, batch=2000)
+    res, faults, leaky = cl.run_parallel(binary, lines, per_case_timeout=30.0, batch=2000,
+                                         costs=[cl.line_cost(ln) for ln in lines], cost_limit=48e6)
 
     # the envelope, judged by TLC against Codec.tla
     obs = []
